@@ -11,9 +11,9 @@ Cands == In.cands
 Probes == ToSet(In.probes)
 Res == ndJsonDeserialize(IOEnv.OBS)
 N == Len(Cands)
-VARIABLE i
-Init == i = 0
-Next == i = 0 /\ i' \in 1..N
+VARIABLES i, ph
+Init == i \in 1..N /\ ph = 0
+Next == ph = 0 /\ ph' = 1 /\ i' = i
 IsPanic(c) == c.t = "panic"
 \* syntactic agreement of an implementation result with the transcription (multiples compared as sequences)
 Same(c, d) == c.t = d.t /\ CASE c.t = "single" -> ValueEq(c.v, d.v)
@@ -25,7 +25,7 @@ BadExcl(k) == {p \in 1..Len(In.probes) : IsPanic(Res[k].excl[p]) \/ ~ExcludeExac
 BadContains(k) == {p \in 1..Len(In.probes) : Res[k].aImpl[p] # Contains(Cands[k], In.probes[p])}
 Drift(k) == Cardinality({j \in 1..N : ~IsPanic(Res[k].inter[j]) /\ ~Same(Res[k].inter[j], Intersect(Cands[k], Cands[j]))})
             + (IF ~IsPanic(Res[k].norm) /\ ~Same(Res[k].norm, Normalize(Cands[k])) THEN 1 ELSE 0)
-Judged == i = 0 \/
+Judged == ph = 0 \/
   LET a == Cands[i] r == Res[i] IN
   /\ IF IsPanic(r.norm) \/ ~NormalizeExact(r.norm, a, Probes) THEN PrintT(<<"VERDICT", i, "C06.normalize", ToJson([a |-> a, got |-> r.norm])>>) ELSE TRUE
   /\ IF BadInter(i) # {} THEN LET j == CHOOSE j \in BadInter(i) : TRUE IN PrintT(<<"VERDICT", i, "C06.intersect", ToJson([a |-> a, b |-> Cands[j], got |-> r.inter[j], n |-> Cardinality(BadInter(i))])>>) ELSE TRUE
